@@ -319,6 +319,14 @@ impl C17 {
         match (&singles, two_hop_ok) {
             (Ok((paid, mid_out, mid_in, got)), true) => {
                 cov.probe("two_hop_vs_singles_compared");
+                for wk in [c.a("whirlpool_one"), c.a("whirlpool_two")] {
+                    if let (Some(p0), Some(p1)) = (pre.data(&wk).and_then(decode::pool), two_hop_post.and_then(|l| l.data(&wk)).and_then(decode::pool)) {
+                        let width = 88 * p0.tick_spacing as i32;
+                        if (p1.tick_current_index.div_euclid(width) - p0.tick_current_index.div_euclid(width)).abs() >= 2 {
+                            cov.probe("two_hop_leg_ended_in_its_third_tick_array");
+                        }
+                    }
+                }
                 if mid_out != mid_in {
                     out.push(viol("accepted_intermediate_mismatch", idx, format!("two-hop succeeded although leg one yields {} and leg two consumes {}", mid_out, mid_in)));
                     return;
